@@ -683,9 +683,6 @@ class Sort(Family):
         if illegal:
             return [("sort-accepts-illegal-start", "edge_start=%r accepted" % case["edge_start"])]
         fails = oracle_sort(inp, obs["out"], case["edge_start"], case["skip"])
-        if case["edge_start"] > 0 and any(e[4] for e in inp["edges"]):
-            # input class of the partial-sort defect: rows before edge_start + edge metadata
-            fails = [("sort-edge-start-with-edge-metadata:" + k if "edge" in k else k, m) for k, m in fails]
         if not obs["idempotent"]:
             fails.append(("sort-not-idempotent", "second identical sort() changed the tables"))
         if obs["has_index"]:
